@@ -22,7 +22,8 @@ KEYWORDS = ['select', 'update', 'where', 'order by', 'group by', 'join', 'inner 
             'strict left join', 'limit', 'except', 'from', 'from a', 'top', 'distinct', 'count', 'asc', 'desc', 'set', 'with',
             'with (header)', 'on', 'and', 'as']
 LIT_ALPHA = KEYWORDS + [k.upper() for k in KEYWORDS] + ['*', '=', '==', '#', ',', ';', 'a1', 'b.x', 'a.x', 'NR', '"', "'", '\\',
-                                                         '\t', ' ', '  ', 'a[1]', 'x', 'y', '(', ')', '//', 'COUNT(*)', ' as n', ';;', 'b1']
+                                                         '\t', ' ', '  ', 'a[1]', 'x', 'y', '(', ')', '//', 'COUNT(*)', ' as n', ';;', 'b1',
+                                                         '$', '$$', '$&', '$`', "$'", '$1', '${x}', '%s', '{}', '{0}', '\\1', '&', '^', '|']
 LANGS = (('py', 0), ('js', 1))
 
 # ------------------------------------------------------------------ literals
